@@ -47,6 +47,65 @@ theorem filter_exact (d : Deque) (p : Nat → Bool) (m : Mem) (hi : d.Inv) :
     simpa using f3
   · exact Or.inr ⟨n1, n2, h0⟩
 
+/-- **when do the builders fail** (pins the failure branches of `copy_exact` / `filter_exact`): a copy reports
+`CC_ERR_ALLOC` exactly when one of its two allocator calls (header, buffer — through the source's triple) is
+refused, and `CC_OK` otherwise; `filter` reports `CC_ERR_OUT_OF_RANGE` exactly on an empty source,
+`CC_ERR_ALLOC` exactly when the source is non-empty and one of the two calls is refused, `CC_OK` otherwise.
+A failed builder produces no object and leaves the ledger balanced. -/
+theorem builders_fail_iff (d : Deque) (cp : Option (Nat → Nat)) (p : Nat → Bool) (m : Mem) (hi : d.Inv) :
+    (((d.copy cp m).1 = .errAlloc ↔
+        ((m.allocT d.triple).1 = false ∨ ((m.allocT d.triple).2.allocT d.triple).1 = false)) ∧
+      ((d.copy cp m).1 = .ok ∨ (d.copy cp m).1 = .errAlloc) ∧
+      ((d.copy cp m).1 ≠ .ok → (d.copy cp m).2.1 = none ∧ Deque.memSame d.triple (d.copy cp m).2.2 m)) ∧
+    (((d.filter p m).1 = .errOutOfRange ↔ d.size = 0) ∧
+      ((d.filter p m).1 = .errAlloc ↔ d.size ≠ 0 ∧
+        ((m.allocT d.triple).1 = false ∨ ((m.allocT d.triple).2.allocT d.triple).1 = false)) ∧
+      ((d.filter p m).1 = .ok ∨ (d.filter p m).1 = .errOutOfRange ∨ (d.filter p m).1 = .errAlloc) ∧
+      ((d.filter p m).1 ≠ .ok → (d.filter p m).2.1 = none ∧ Deque.memSame d.triple (d.filter p m).2.2 m)) := by
+  constructor
+  · rcases Deque.copy_spec d cp m hi with ⟨n1, _⟩ | ⟨n1, n2, n3, n4⟩
+    · obtain ⟨k1, k2⟩ := Deque.copy_alloc_ok d cp m n1
+      refine ⟨⟨fun h => by rw [n1] at h; exact absurd h (by decide), ?_⟩, Or.inl n1, fun h => absurd n1 h⟩
+      rintro (h | h)
+      · rw [h] at k1; exact absurd k1 (by decide)
+      · rw [h] at k2; exact absurd k2 (by decide)
+    · exact ⟨⟨fun _ => n4, fun _ => n1⟩, Or.inr n1, fun _ => ⟨n2, n3⟩⟩
+  · rcases Deque.filter_spec d p m hi with ⟨h0, e, _⟩ | ⟨h0, n1, _⟩ | ⟨h0, n1, n2, n3, n4⟩
+    · rw [e]
+      exact ⟨⟨fun _ => h0, fun _ => rfl⟩, ⟨fun h => by simp at h, fun h => absurd h0 h.1⟩, Or.inr (Or.inl rfl),
+        fun _ => ⟨rfl, Deque.memSame_refl _ m⟩⟩
+    · obtain ⟨k1, k2⟩ := Deque.filter_alloc_ok d p m hi n1
+      refine ⟨⟨fun h => by rw [n1] at h; exact absurd h (by decide), fun h => absurd h h0⟩,
+        ⟨fun h => by rw [n1] at h; exact absurd h (by decide), ?_⟩, Or.inl n1, fun h => absurd n1 h⟩
+      rintro ⟨_, h | h⟩
+      · rw [h] at k1; exact absurd k1 (by decide)
+      · rw [h] at k2; exact absurd k2 (by decide)
+    · exact ⟨⟨fun h => by rw [n1] at h; exact absurd h (by decide), fun h => absurd h h0⟩,
+        ⟨fun _ => ⟨h0, n4⟩, fun _ => n1⟩, Or.inr (Or.inr n1), fun _ => ⟨n2, n3⟩⟩
+
+/-- **destroying a derived deque**: the result of a successful copy / filter is destroyed through the triple
+it inherited; afterwards both ledger balances are what they were before the builder ran (its two blocks are
+released exactly once, nothing of the source's is touched — the source is a separate value of the model and
+still satisfies its invariant: `_model` for that last clause) -/
+theorem derived_destroy_model (d c : Deque) (cp : Option (Nat → Nat)) (p : Nat → Bool) (m : Mem) (hi : d.Inv) :
+    ((d.copy cp m).2.1 = some c → Deque.memSame d.triple (c.destroy (d.copy cp m).2.2) m ∧ c.triple = d.triple) ∧
+    ((d.filter p m).2.1 = some c → Deque.memSame d.triple (c.destroy (d.filter p m).2.2) m ∧ c.triple = d.triple) ∧
+    d.Inv := by
+  refine ⟨fun h => ?_, fun h => ?_, hi⟩
+  · rcases Deque.copy_spec d cp m hi with ⟨_, c', n2, _, _, _, n6, n7, _⟩ | ⟨_, n2, _⟩
+    · rw [n2] at h; cases h
+      have hd := Deque.destroy_ledger c (d.copy cp m).2.2 (by rw [n6]; have := n7.1; omega)
+      rw [n6] at hd
+      exact ⟨Deque.memD_norm (k := 0) (j := 2) (by simpa using Deque.memD_trans hd n7), n6⟩
+    · rw [n2] at h; cases h
+  · rcases Deque.filter_spec d p m hi with ⟨_, e, _⟩ | ⟨_, _, _, c', f1, _, _, _, f5, f6, _⟩ | ⟨_, _, n2, _⟩
+    · rw [e] at h; cases h
+    · rw [f1] at h; cases h
+      have hd := Deque.destroy_ledger c (d.filter p m).2.2 (by rw [f5]; have := f6.1; omega)
+      rw [f5] at hd
+      exact ⟨Deque.memD_norm (k := 0) (j := 2) (by simpa using Deque.memD_trans hd f6), f5⟩
+    · rw [n2] at h; cases h
+
 /-- **derived_can_grow**: the result inherits the source's configuration (allocator triple, capacity), so
 it is a fully usable deque: an append on it — also on the *exactly full* copy of a full deque — succeeds
 and refines `append`, doubling the capacity when it was full (hypothesis: the allocator of the result's
